@@ -13,7 +13,7 @@ R07.4 (K2): TransportManager::on_connection_closed yields TransportEvent::Connec
 """
 import re
 from paths import Inter
-from common import exit_desc, short
+from common import exit_desc, short, local_used
 
 EXPLANATION = ("All-paths structural obligations on the MIR CFG (pre-coroutine-transform) of the connection event loops "
                "and ProtocolSet report functions: every exit of each transport's connection loop is preceded by the close "
@@ -253,9 +253,7 @@ def r07_7(ctx, fx):
     inspected = 0
     for i, c in enumerate(calls):
         d = c.dest[0] if c.dest else None
-        looked = [sw for sw in fn.discr_switches() if sw[1] and sw[1][0] == d]
-        flows = d == 0   # `return self.on_connection_closed(..)`
-        if not looked and not flows:
+        if d is None or (d != 0 and not local_used(fn, d)):
             continue
         inspected += 1
         org = [fn.origin(a) for a in c.args[1:]]
